@@ -56,6 +56,7 @@ class Registry:
         self.plain_truthy = set()  # opaque classes with default truthiness (no __bool__/__len__)
         self.constructors = {}  # class / external name -> hook(ex, args, kwargs)
         self.path_init = []     # hooks run at the start of every path
+        self.opaque_call_hook = None
         self.opaque_classes = {}  # class name -> module: classes whose __init__ only stores its parameters (checked per run)
 
     # --- declaration helpers
